@@ -272,9 +272,7 @@ struct Shape {
     jump_in_builder: bool,
     /// `break`/`continue` lexically inside the try block of a `try` that is inside the loop — F-C05-6
     jump_in_try: bool,
-    /// some frame has `1 + locals + captures + placeholders > 255` (upper bound by the AST) — F-C05-3
-    frame_sum_overflow: bool,
-    /// a function accesses two or more non-locals (capture order comes from a HashSet)     — F-C05-2
+    /// a function accesses two or more non-locals (distribution only; capture order was F-C05-2, fixed)
     multi_non_local: bool,
     functions: usize,
     nodes: usize,
@@ -302,18 +300,6 @@ fn shape_of(ast: &Ast) -> Shape {
                 sh.functions += 1;
                 if f.accessed_non_locals.len() >= 2 {
                     sh.multi_non_local = true;
-                }
-                let nargs = match &ast.node(f.args).node {
-                    Node::FunctionArgs { args, .. } => args.len(),
-                    _ => 0,
-                };
-                if 1 + f.local_count + f.accessed_non_locals.len() + nargs > 255 {
-                    sh.frame_sum_overflow = true;
-                }
-            }
-            Node::MainBlock { local_count, .. } => {
-                if local_count % 256 == 255 {
-                    sh.frame_sum_overflow = true;
                 }
             }
             Node::For(_) | Node::Loop { .. } | Node::While { .. } | Node::Until { .. } => loops.push(s),
@@ -375,8 +361,7 @@ fn ast_hashes(ast: &Ast) -> (u64, u64) {
 // ---------------------------------------------------------------------------------------------
 // seeded program generator (well-formedness of the bytecode matters; programs need not terminate)
 // Envelope: no `return`/`break`/`continue` inside list/tuple/string-interpolation expressions or
-// try blocks, no function literal in statement position, at most one captured outer variable per
-// function (documented shapes of F-C05-5/-6/-4/-2).
+// try blocks, no function literal in statement position (documented shapes of F-C05-5/-6/-4).
 // ---------------------------------------------------------------------------------------------
 
 struct Gen {
@@ -388,8 +373,8 @@ struct Gen {
 #[derive(Clone)]
 struct Scope {
     vars: Vec<String>,
-    /// the single outer variable a nested function may capture
-    cap: Option<String>,
+    /// outer variables a nested function may capture (any number of them)
+    cap: Vec<String>,
     in_loop: bool,
     in_fn: bool,
     in_gen: bool,
@@ -404,11 +389,23 @@ impl Gen {
     }
     fn var(&mut self, sc: &Scope) -> String {
         let mut pool: Vec<&String> = sc.vars.iter().collect();
-        if let Some(c) = &sc.cap {
+        for c in &sc.cap {
             pool.push(c);
         }
         // an id that is assigned nowhere: a non-local lookup (never a capture)
         if pool.is_empty() { "g0".into() } else { (*self.rng.pick(&pool)).clone() }
+    }
+    /// the outer variables visible to a function nested in `sc` (a random subset, possibly all)
+    fn outer_for_nested(&mut self, sc: &Scope, own_name: Option<&String>) -> Vec<String> {
+        let mut all: Vec<String> = sc.vars.iter().chain(sc.cap.iter()).cloned().collect();
+        if let Some(n) = own_name {
+            all.push(n.clone());
+        }
+        match self.rng.below(4) {
+            0 => vec![],
+            1 => all.into_iter().filter(|_| self.rng.chance(1, 2)).collect(),
+            _ => all,
+        }
     }
     fn lit(&mut self) -> String {
         match self.rng.below(9) {
@@ -472,7 +469,7 @@ impl Gen {
             18 => {
                 // inline function literal in value position; may capture one variable
                 let p = self.fresh("p");
-                let cap = if self.rng.chance(1, 2) && !(sc.vars.is_empty() && sc.cap.is_none()) { Some(self.var(sc)) } else { None };
+                let cap = self.outer_for_nested(sc, None);
                 let fsc = Scope { vars: vec![p.clone()], cap, in_loop: false, in_fn: true, in_gen: false, no_jump: false };
                 format!("(|{}| {})", p, self.expr(&fsc, d - 1))
             }
@@ -699,14 +696,8 @@ impl Gen {
                     sig.push("_".into());
                 }
                 let is_gen = self.rng.chance(1, 5);
-                // capture: one of the enclosing scope's own variables, the enclosing capture, or itself
-                let cap = match self.rng.below(4) {
-                    0 => None,
-                    1 => Some(f.clone()),
-                    _ => {
-                        if sc.vars.is_empty() && sc.cap.is_none() { None } else { Some(self.var(sc)) }
-                    }
-                };
+                // captures: any of the visible outer variables, and the function itself
+                let cap = self.outer_for_nested(sc, Some(&f));
                 let ret = if self.rng.chance(1, 6) && !is_gen { " -> Any" } else { "" };
                 self.line(ind, &format!("{} = |{}|{}", f, sig.join(", "), ret));
                 let mut b = Scope { vars: ps, cap, in_loop: false, in_fn: true, in_gen: is_gen, no_jump: false };
@@ -758,9 +749,50 @@ impl Gen {
     }
 }
 
+/// Capture-heavy program: functions (nested up to three deep) that read 2..=14 outer variables in a
+/// random order, some of them assigned after the function is defined, plus exported ids.
+fn gen_capture_program(rng: &mut Rng) -> String {
+    let mut s = String::new();
+    let n = 2 + rng.below(13);
+    let names: Vec<String> = (0..n).map(|i| format!("{}{}", ["a", "zz", "k", "m_", "q"][rng.below(5)], i)).collect();
+    for (i, x) in names.iter().enumerate() {
+        if rng.chance(1, 6) {
+            s.push_str(&format!("export {} = {}\n", x, i));
+        } else {
+            s.push_str(&format!("{} = {}\n", x, i));
+        }
+    }
+    let pick = |rng: &mut Rng, k: usize| -> Vec<String> {
+        let mut v: Vec<String> = vec![];
+        for _ in 0..k {
+            v.push(names[rng.below(names.len())].clone());
+        }
+        v
+    };
+    let nf = 1 + rng.below(4);
+    for fi in 0..nf {
+        let k = 2 + rng.below(n);
+        let used = pick(rng, k);
+        match rng.below(4) {
+            0 => s.push_str(&format!("f{} = || {}\n", fi, used.join(" + "))),
+            1 => {
+                s.push_str(&format!("f{} = |p|\n  g = |q| {} + q + p\n  g(p) + {}\n", fi, used.join(" * "), pick(rng, 2).join(" - ")));
+            }
+            2 => {
+                s.push_str(&format!("f{} = |p|\n  h = ||\n    i = || {}\n    i() + {}\n  h() + f{}(p - 1)\n", fi, used.join(" + "), pick(rng, 3).join(" + "), fi));
+            }
+            _ => {
+                s.push_str(&format!("f{} = |p = {}|\n  for x in ({},)\n    yield x + {}\n", fi, used[0], used.join(", "), used[k - 1]));
+            }
+        }
+    }
+    s.push_str("f0()\n");
+    s
+}
+
 fn gen_program(rng: &mut Rng) -> String {
     let mut g = Gen { rng: rng.fork(), out: String::new(), next_id: 0 };
-    let mut sc = Scope { vars: vec![], cap: None, in_loop: false, in_fn: false, in_gen: false, no_jump: false };
+    let mut sc = Scope { vars: vec![], cap: vec![], in_loop: false, in_fn: false, in_gen: false, no_jump: false };
     let n = 2 + g.rng.below(8);
     let d = 1 + g.rng.below(3) as u32;
     for _ in 0..n {
@@ -791,12 +823,8 @@ fn filler(n: usize, ind: usize, var: &str) -> String {
 /// (label, source). `fine`: more sizes around the 64 KiB thresholds.
 fn scaled_programs(rng: &mut Rng, fine: bool) -> Vec<(String, String)> {
     let mut v: Vec<(String, String)> = vec![];
-    // locals at top level and inside a function (255 top-level / in-function locals is the documented
-    // shape of F-C05-3 and is only run as its witness)
+    // locals at top level and inside a function (255 locals: 1 + 255 no longer fits, former F-C05-3)
     for n in 248..=262usize {
-        if n == 255 {
-            continue;
-        }
         let mut s = String::new();
         for i in 0..n {
             s.push_str(&format!("x{} = {}\n", i, i % 7));
@@ -822,6 +850,20 @@ fn scaled_programs(rng: &mut Rng, fine: bool) -> Vec<(String, String)> {
         if 1 + l + 1 + 2 <= 255 {
             v.push((format!("locals-{}-capture-placeholders", l), s));
         }
+    }
+    // locals + captures around the limit: 1 + locals + captures in 250..=262 (former F-C05-3 shape)
+    for (l, c) in [(248usize, 12usize), (240, 9), (240, 14), (240, 15), (243, 11), (244, 11), (230, 24), (230, 25), (200, 54), (200, 55), (250, 4), (250, 5), (253, 1), (253, 2), (254, 0), (254, 1)] {
+        let mut s = String::new();
+        for i in 0..c {
+            s.push_str(&format!("c{} = {}\n", i, i));
+        }
+        s.push_str("f = ||\n");
+        for i in 0..l {
+            s.push_str(&format!("  x{} = {}\n", i, i % 7));
+        }
+        let caps: Vec<String> = (0..c).map(|i| format!("c{}", i)).collect();
+        s.push_str(&format!("  {}\nf()\n", if c == 0 { "x0".to_string() } else { caps.join(" + ") }));
+        v.push((format!("locals-{}-captures-{}", l, c), s));
     }
     // temporaries: right-nested arithmetic and nested calls
     for depth in [100usize, 200, 240, 250, 252, 253, 254, 255, 256, 260] {
@@ -882,8 +924,10 @@ fn scaled_programs(rng: &mut Rng, fine: bool) -> Vec<(String, String)> {
     }
     for n in sizes {
         let body1 = filler(n, 1, "n");
-        // `loop` bodies: above 64 KiB it is the documented shape of F-C05-1 — see witnesses; here only with an
-        // early `break`, whose forward jump is checked
+        // `loop` bodies: with an early `break` (forward jump) and with a late one (only the backward jump
+        // spans the body: the former F-C05-1 shape)
+        v.push((format!("loop-{}", n), format!("n = 0\nloop\n{}  if n > 100000000 then break\n", body1)));
+        v.push((format!("loop-continue-{}", n), format!("n = 0\nloop\n  n += 1\n  if n > 9 then break\n{}  if n > 5 then continue\n  n = 7\n", body1)));
         v.push((format!("loop-break-{}", n), format!("n = 0\nloop\n  if n > 5 then break\n{}", body1)));
         v.push((format!("while-{}", n), format!("n = 0\nwhile n < 5\n{}", body1)));
         v.push((format!("until-{}", n), format!("n = 0\nuntil n > 5\n{}", body1)));
@@ -1293,18 +1337,12 @@ impl Ctx {
             }
             Outcome::Panic(msg, loc) => {
                 self.rep.case(src, true);
-                // cause rule of F-C05-3: u8 overflow in Frame::new's register sum
-                let sh = Parser::parse(src).ok().map(|a| shape_of(&a)).unwrap_or_default();
-                if msg.contains("attempt to add with overflow") && loc.contains("bytecode/src/frame.rs") && sh.frame_sum_overflow && self.is_open("F-C05-3") {
-                    self.attributed("F-C05-3", origin);
-                } else {
-                    self.rep.violation(
-                        "D",
-                        "C05:compile-panic",
-                        json!({"origin": origin, "program": src, "input_hex": kvh::hex(src.as_bytes()), "panic": msg, "location": loc,
-                               "note": "the compiler panicked instead of reporting a compile error"}),
-                    );
-                }
+                self.rep.violation(
+                    "D",
+                    "C05:compile-panic",
+                    json!({"origin": origin, "program": src, "input_hex": kvh::hex(src.as_bytes()), "panic": msg, "location": loc,
+                           "note": "the compiler panicked instead of reporting a compile error"}),
+                );
                 false
             }
             Outcome::Ok(b) => {
@@ -1387,15 +1425,11 @@ impl Ctx {
             self.rep.violation("D", "C05:determinism:parser", json!({"origin": origin, "program": src, "input_hex": kvh::hex(src.as_bytes()), "against": what,
                 "note": "the two ASTs differ in more than the order of accessed_non_locals"}));
         } else if a.raw_h != b.2 {
-            // same AST up to the order of some function's accessed_non_locals (HashSet iteration order)
-            if !same_code {
-                if shape.multi_non_local && self.is_open("F-C05-2") {
-                    self.attributed("F-C05-2", origin);
-                } else {
-                    self.rep.violation("D", "C05:determinism:capture-order", json!({"origin": origin, "program": src, "input_hex": kvh::hex(src.as_bytes()), "against": what,
-                        "note": "different code for the same text; the ASTs differ only in the order of a function's accessed_non_locals"}));
-                }
-            }
+            // same AST up to the order of some function's accessed_non_locals: the parser must produce one order
+            // (fix 104324c of F-C05-2 sorts the list)
+            self.rep.violation("D", "C05:determinism:capture-order", json!({"origin": origin, "program": src, "input_hex": kvh::hex(src.as_bytes()), "against": what,
+                "same_code": same_code, "multi_non_local": shape.multi_non_local,
+                "note": "the two ASTs differ in the order of a function's accessed_non_locals"}));
         } else if !same_code {
             self.rep.violation("D", "C05:determinism:compiler", json!({"origin": origin, "program": src, "input_hex": kvh::hex(src.as_bytes()), "against": what,
                 "note": "identical ASTs, different code"}));
@@ -1461,14 +1495,10 @@ impl Ctx {
         self.rep.bump("wf=fail");
         let reason = wf.strip_prefix("fail ").unwrap_or(wf);
         let (name, rest) = reason.split_once('@').unwrap_or((reason, ""));
-        let (pc_s, op) = rest.split_once(':').unwrap_or((rest, ""));
-        let pc: usize = pc_s.trim_start_matches("unit").parse().unwrap_or(0);
+        let _ = rest;
         let unbalanced = name == "unbalanced-builders-or-try";
-        let target = name == "jump-target-not-a-boundary-of-this-function";
         let id = if name == "NewFrame-inside-unit" && p.shape.functions >= 1 {
             Some("F-C05-4")
-        } else if (unbalanced || target) && op == "JumpBack" && pc + 3 > 65535 {
-            Some("F-C05-1")
         } else if unbalanced && p.shape.jump_in_builder {
             Some("F-C05-5")
         } else if unbalanced && p.shape.jump_in_try {
@@ -1633,7 +1663,7 @@ fn real_main() -> i32 {
     install_panic_hook();
     let args = Args::parse();
     let mut rep = Report::new("C05", &args);
-    rep.rule = "cases = programs handed to the real compiler (repository scripts, documentation examples, their single-token delete/duplicate/swap neighbours, seeded generated programs, size-scaled programs at the u8/u16 limits) plus register-allocator histories; every compiled chunk goes through wfChunk and the decoder correspondence, and is compiled again in this process and in a child process; distinct = distinct source texts / histories; non-trivial = chunk with at least 4 instructions, or a history with at least 3 operations".into();
+    rep.rule = "cases = programs handed to the real compiler (repository scripts, documentation examples, their single-token delete/duplicate/swap neighbours, seeded generated programs, capture-heavy programs (also compiled in two fresh processes each), size-scaled programs at the u8/u16 limits) plus register-allocator histories; every compiled chunk goes through wfChunk and the decoder correspondence, and is compiled again in this process and in a child process; distinct = distinct source texts / histories; non-trivial = chunk with at least 4 instructions, or a history with at least 3 operations".into();
     let open: Vec<String> = rep.known_open().iter().filter_map(|e| e.get("id").and_then(|x| x.as_str()).map(|s| s.to_string())).collect();
     let drv = Driver::spawn(&args.driver);
     let worker = Worker::spawn(&["--worker".to_string()]);
@@ -1712,6 +1742,35 @@ fn real_main() -> i32 {
 
     cx.rep.note(format!("phase generated done at {:.1}s", t0.elapsed().as_secs_f64()));
     let _ = t_phase;
+    // 2b. capture-heavy programs: additionally compiled in two fresh processes each
+    let n_cap = if thorough { 1500 } else { 120 };
+    for i in 0..n_cap {
+        let src = gen_capture_program(&mut rng);
+        let ok = cx.submit(&format!("captures:{}", i), &src, false);
+        if !ok {
+            cx.rep.violation("D", "C05:capture-program-rejected", json!({"program": src, "input_hex": kvh::hex(src.as_bytes()),
+                "note": "a capture-heavy generated program did not compile (generator or compiler defect)"}));
+            continue;
+        }
+        if let Outcome::Ok(b) = build(&src) {
+            let shape = shape_of(&b.ast);
+            for _ in 0..2 {
+                let mut wk = Worker::spawn(&["--worker".to_string()]);
+                if let Reply::Ok(r) = wk.request(&format!("c {}", kvh::hex(src.as_bytes())), Duration::from_secs(30)) {
+                    let f: Vec<&str> = r.split(' ').collect();
+                    if f.len() == 5 && f[0] == "ok" {
+                        let p = |x: &str| u64::from_str_radix(x, 16).unwrap_or(0);
+                        cx.disagreements_checked += 1;
+                        cx.compare_builds(&format!("captures:{}", i), &src, &b, (p(f[1]), p(f[2]), p(f[3]), p(f[4])), "compilation in a fresh process", &shape);
+                    }
+                }
+            }
+            cx.rep.bump(&format!("capture_program_non_locals_max={}", b.ast.nodes().iter().filter_map(|n| if let Node::Function(f) = &n.node { Some(f.accessed_non_locals.len()) } else { None }).max().unwrap_or(0).min(16)));
+        }
+    }
+    cx.flush();
+    cx.rep.note(format!("phase capture-heavy done at {:.1}s", t0.elapsed().as_secs_f64()));
+
     // 3. size-scaled programs
     for (label, src) in scaled_programs(&mut rng, thorough) {
         let compiled = cx.submit(&format!("scaled:{}", label), &src, false);
